@@ -5,8 +5,17 @@ from typing import Dict, List, Optional, Tuple
 
 
 class Term:
-    def key(self) -> str:  # canonical text
+    _k = None
+
+    def _key(self) -> str:  # canonical text
         raise NotImplementedError
+
+    def key(self) -> str:
+        k = self._k
+        if k is None:
+            k = self._key()
+            self._k = k
+        return k
 
     def __repr__(self):
         return self.key()
@@ -24,7 +33,7 @@ class Child(Term):
     def __init__(self, path: str, container: bool = False):
         self.path = path
 
-    def key(self):
+    def _key(self):
         return f"Child({self.path})"
 
 
@@ -36,7 +45,7 @@ class New(Term):
         self.attrs = attrs
         self.lineno = lineno
 
-    def key(self):
+    def _key(self):
         inner = ",".join(f"{k}={v.key()}" for k, v in sorted(self.attrs.items()))
         return f"New({self.cls.name};{inner})"
 
@@ -53,7 +62,7 @@ class Fn(Term):
         self.pos = tuple(pos)
         self.frame = frame  # closure env for lambdas
 
-    def key(self):
+    def _key(self):
         n = getattr(self.node, "name", "<lambda>")
         b = ",".join(f"{k}={v.key()}" for k, v in sorted(self.bound.items()))
         return f"Fn({n};{b})"
@@ -63,7 +72,7 @@ class Const(Term):
     def __init__(self, v):
         self.v = v
 
-    def key(self):
+    def _key(self):
         return f"Const({self.v!r})"
 
 
@@ -75,7 +84,7 @@ class Sym(Term):
         self.args = tuple(args)
         self.text = text
 
-    def key(self):
+    def _key(self):
         if self.args:
             return f"{self.head}({','.join(a.key() for a in self.args)})"
         return self.head if not self.text else f"{self.head}<{self.text}>"
@@ -88,7 +97,7 @@ class Val(Term):
         self.op = op
         self.target = target
 
-    def key(self):
+    def _key(self):
         return f"Val({self.op},{self.target.key()})"
 
 
@@ -99,7 +108,7 @@ class Bound(Term):
         self.target = target
         self.name = name
 
-    def key(self):
+    def _key(self):
         return f"Bound({self.target.key()}.{self.name})"
 
 
@@ -109,7 +118,7 @@ class Seq(Term):
     def __init__(self, items: List[Term], star: Optional[Term] = None):
         self.items = list(items)
 
-    def key(self):
+    def _key(self):
         return "Seq[" + ",".join(i.key() for i in self.items) + "]"
 
 
@@ -117,7 +126,7 @@ class Opaque(Term):
     def __init__(self, text: str = "?"):
         self.text = text
 
-    def key(self):
+    def _key(self):
         return f"Opaque({self.text})"
 
 
